@@ -227,6 +227,7 @@ def run(ctx):
                          ops=cand[(k + gen.ALL.index(name)) % len(cand)]))
     life.append(dict(src='life', est=name, seed=int(rng.integers(1 << 30)), same_dims=True, ops=c17.directed_ops(name)))
     life.append(dict(src='life', est=name, seed=int(rng.integers(1 << 30)), same_dims=True, indexed=True, ops=c17.directed_ops(name)))
+    life.append(dict(src='life', est=name, seed=int(rng.integers(1 << 30)), same_dims=True, ops=c17.copies_ops(name)))
   ctx.rule = ('every constructor parameter of every estimator (names from inspect.signature at run time) x value kinds '
               '%s: construct/get_params/set_params with object identity as tokens; every deprecated alias; every public '
               'method on a fresh object; plus TLC-simulated life-cycle histories with clone / pickle / set_params; '
